@@ -422,6 +422,7 @@ def monitor_identity(ctx, n_hist=6, steps=60):
             d = Real(cfg)
             ref = Real({})       # reference for claims only
             ident = {}
+            claimed = {}
             for k, inp in enumerate(h):
                 n += 1
                 pgn, prio, src, dst, data, comb, win = inp
@@ -429,6 +430,7 @@ def monitor_identity(ctx, n_hist=6, steps=60):
                     o, m = ref.feed(inp)
                     if m is not None:
                         ident[src] = m.source_iso_name
+                        claimed[src] = int.from_bytes(bytes(data)[:8], "little")      # the NAME as it is on the wire: independent of any decoder object
                 o, m = d.feed(inp)
                 if m is None:
                     continue
@@ -442,6 +444,9 @@ def monitor_identity(ctx, n_hist=6, steps=60):
                     if (got.unique_number, got.device_instance, got.system_instance, got.manufacturer_code) != (nm & 0x1FFFFF, (nm >> 32) & 0xFF, (nm >> 56) & 0xF, manu_name):
                         bad = (f"identity of source {src} is (unique {got.unique_number}, instance {got.device_instance}, system {got.system_instance}, {got.manufacturer_code}); "
                                f"its NAME {nm:#018x} says ({nm & 0x1FFFFF}, {(nm >> 32) & 0xFF}, {(nm >> 56) & 0xF}, {manu_name})")
+                if not bad and got is not None and src in claimed and got.name != claimed[src]:
+                    bad = (f"message from source {src} carries the NAME {got.name:#018x} (instance {got.device_instance}), the most recent claim received from that address "
+                           f"has NAME {claimed[src]:#018x} (instance {(claimed[src] >> 32) & 0xFF})")
                 if bad:
                     pass
                 elif (exp is None) != (got is None) or (exp is not None and canon_iso(exp) != canon_iso(got)):
@@ -746,3 +751,58 @@ def replay_formats(rp):
         real.close()
     bad = _formats_verdict(outs)
     return bad is None, json.dumps(bad)[:600]
+
+
+def _ebyte(pgn, prio, src, dst, data):
+    pf = (pgn >> 8) & 0xFF
+    i = (prio << 26) | ((pgn | (dst if pf < 240 else 0)) << 8) | src
+    return bytes([0x80 | len(data)]) + i.to_bytes(4, "big") + bytes(data) + bytes(8 - len(data))
+
+
+def datapage_probe(pgn, prio, src, dst, data, first_twin):
+    """one decoder sees a frame of the PGN that differs only in the data-page bit and a frame of `pgn` (in either order), through the
+    identifier path (decode_tcp); the frame of `pgn` must decode as the pre-parsed path (decode_basic_string, which never looks at an
+    identifier) decodes the same payload.  Returns None or a description"""
+    from nmea2000.decoder import NMEA2000Decoder
+    d = NMEA2000Decoder()
+    twin = pgn ^ 0x10000
+    line = "2024-01-01-00:00:00.000,%d,%d,%d,%d,%d,%s" % (prio, pgn, src, dst, len(data), ",".join("%02x" % b for b in data))
+    try:
+        ref = NMEA2000Decoder().decode_basic_string(line)
+    except Exception:
+        return None
+    if ref is None:
+        return None
+    order = [(twin, bytes(8)), (pgn, bytes(data))] if first_twin else [(pgn, bytes(data)), (twin, bytes(8)), (pgn, bytes(data))]
+    got = None
+    for q, dat in order:
+        try:
+            r = d.decode_tcp(_ebyte(q, prio, src, dst, dat))
+        except Exception as e:
+            r = f"raised {type(e).__name__}"
+        if q == pgn:
+            got = r
+        elif r is not None and not isinstance(r, str) and r.PGN != q:
+            return f"a frame of PGN {q} (the data-page twin of {pgn}) was returned as PGN {r.PGN} ({r.id})"
+    if got is None or isinstance(got, str) or canon_msg(got).split(" hk=")[1:] != canon_msg(ref).split(" hk=")[1:] or got.PGN != ref.PGN:
+        return (f"PGN {pgn} from source {src} after a frame of PGN {twin} (same PDU format and specific bytes, other data page): the identifier path returns "
+                f"{got if got is None or isinstance(got, str) else (got.PGN, got.id)}, the same payload pre-parsed gives {(ref.PGN, ref.id)}")
+    return None
+
+
+def monitor_datapage(ctx):
+    """C16 (and C05) on the real code: what a frame decodes to does not depend on frames of a PGN with the same PF/PS bytes and another data
+    page seen earlier by this or any other decoder object"""
+    harness.load_repo()
+    db = pgncorr.Db(ctx["repo"])
+    rnd = random.Random(ctx["seed"] + 66)
+    t = Traffic(rnd, db)
+    n = 0
+    for k in range(60):
+        pgn, prio, src, dst, data = t.single(rnd.choice([1, 2, 7]))[:5]
+        for first_twin in (True, False):
+            n += 1
+            why = datapage_probe(pgn, prio, src, dst, bytes(data), first_twin)
+            if why:
+                return {"kind": "datapage", "pgn": pgn, "prio": prio, "src": src, "dst": dst, "data": bytes(data).hex(), "first_twin": first_twin, "what": why}, n
+    return None, n
